@@ -205,7 +205,8 @@ func (p *Parser) number() (Number, error) {
 // More checks if the parser has more tokens to read.
 func (p *Parser) More() bool {
 	if _, err := p.next(); err != nil {
-		return false
+		// If the text ends in the middle of a token, there's still a term to read. Term will fail to.
+		return p.lexer.chunk() != ""
 	}
 	p.backup()
 	return true
